@@ -1,4 +1,5 @@
 import FuModel.Drv.Xargs
+import FuModel.Drv.XargsSys
 
 /-!
 `fudrv`: one request per line on stdin, one answer per line on stdout.
@@ -9,11 +10,12 @@ undecodable fields answer `bad-request` — the model never defaults.
 -/
 
 def handlers : List (String → List String → Option String) :=
-  [FuModel.Drv.Xargs.handle, FuModel.Drv.Xargs.handleRun]
+  [FuModel.Drv.Xargs.handle, FuModel.Drv.Xargs.handleRun, FuModel.Drv.XargsSys.handle]
 
 def preds : List (String × (List String → List String → Option Bool)) :=
   [("C05", FuModel.Drv.Xargs.pred), ("C04", FuModel.Drv.Xargs.predC04),
-   ("C19", FuModel.Drv.Xargs.predC19), ("C20", FuModel.Drv.Xargs.predC20)]
+   ("C19", FuModel.Drv.Xargs.predC19), ("C20", FuModel.Drv.Xargs.predC20),
+   ("C06", FuModel.Drv.XargsSys.predC06)]
 
 def splitAt (xs : List String) (sep : String) : List String × List String :=
   (xs.takeWhile (· != sep), (xs.dropWhile (· != sep)).drop 1)
